@@ -28,6 +28,8 @@
 EXTENDS Integers, Sequences, FiniteSets, TLC
 
 CONSTANTS Locked, EntryFlag,
+          AtomicIndex,  \* TRUE: the index expression `s.cancelFns[len(s.cancelFns)-1]` is one step (the grain at which
+                        \* scheduler gates can be placed in Go source: between statements); FALSE: one step per load
           MaxPush,      \* contexts pushed (all growing values are bounded)
           MaxDepth,     \* nesting depth
           MaxIntr,      \* interrupts delivered
@@ -140,6 +142,9 @@ Range(s) == {s[j] : j \in DOMAIN s}
       if (l1 = 0) { goto t_unlock };
     t_len2:                                      \* len(s.cancelFns) - 1
       l2 := len;
+      if (AtomicIndex) {
+        if (len < 1) { crashed := TRUE; goto t_exit } else { f := arr[len]; goto t_call };
+      };
     t_idx:                                       \* s.cancelFns[...]: load header, bounds check
       if (l2 < 1 \/ l2 > len) { crashed := TRUE; goto t_exit };
     t_elem:                                      \* load element
@@ -399,10 +404,18 @@ t_len == /\ pc[TR] = "t_len"
 
 t_len2 == /\ pc[TR] = "t_len2"
           /\ l2' = len
-          /\ pc' = [pc EXCEPT ![TR] = "t_idx"]
+          /\ IF AtomicIndex
+                THEN /\ IF len < 1
+                           THEN /\ crashed' = TRUE
+                                /\ pc' = [pc EXCEPT ![TR] = "t_exit"]
+                                /\ f' = f
+                           ELSE /\ f' = arr[len]
+                                /\ pc' = [pc EXCEPT ![TR] = "t_call"]
+                                /\ UNCHANGED crashed
+                ELSE /\ pc' = [pc EXCEPT ![TR] = "t_idx"]
+                     /\ UNCHANGED << crashed, f >>
           /\ UNCHANGED << arr, len, mu, stopped, cancelled, n, idx, own, 
-                          called, live, intr, crashed, cur, i, sidx, evdone, 
-                          l1, f >>
+                          called, live, intr, cur, i, sidx, evdone, l1 >>
 
 t_idx == /\ pc[TR] = "t_idx"
          /\ IF l2 < 1 \/ l2 > len
@@ -490,7 +503,7 @@ AccEV == CASE pc[EV] = "p_len"   -> {<<Hdr, FALSE>>}
            [] pc[EV] = "s_loop"  -> IF i >= 1 THEN {<<Hdr, FALSE>>, <<Elem(i), FALSE>>} ELSE {}
            [] OTHER -> {}
 AccTR == CASE pc[TR] = "t_len"   -> {<<Hdr, FALSE>>}
-           [] pc[TR] = "t_len2"  -> {<<Hdr, FALSE>>}
+           [] pc[TR] = "t_len2"  -> IF AtomicIndex THEN {<<Hdr, FALSE>>, <<Elem(len), FALSE>>} ELSE {<<Hdr, FALSE>>}
            [] pc[TR] = "t_idx"   -> {<<Hdr, FALSE>>}
            [] pc[TR] = "t_elem"  -> {<<Elem(l2), FALSE>>}
            [] OTHER -> {}
